@@ -553,11 +553,13 @@ def replay(w):
         nchan = max(1, w.get('nchan', 1))
         sigs = {'utt%d' % u: (rng.randn(nchan, 1200) * 1000).astype(np.float64) for u in range(max(1, w.get('nutt', 1)))}
 
-        def pipeline(x):
-            comp = afs(FrameComputer, json.loads(json.dumps(conf)))
+        def pipeline(x, with_comp=True):
             for p in pre:
                 x = afs(PreProcessor, dict(p)).apply(x.copy())
-            f = comp.compute_full(x)
+            if with_comp:
+                f = afs(FrameComputer, json.loads(json.dumps(conf))).compute_full(x)
+            else:
+                f = np.asarray(x)[:, None]      # raw-sample mode: the (pre-processed) audio as one column
             for p in post:
                 f = afs(PostProcessor, dict(p)).apply(f)
             return f.astype(np.float32)
@@ -612,6 +614,10 @@ def replay(w):
                     if k in got:
                         return {'reproduced': True, 'detail': 'utterance with rate mismatch was written'}
                     continue
+                if chan >= nchan:
+                    if k in got:
+                        return {'reproduced': True, 'detail': '--channel %d on a %d-channel utterance: %s was written (shape %s, rc=%s) instead of being skipped' % (chan, nchan, k, got[k].shape, rc)}
+                    continue
                 if k not in got:
                     return {'reproduced': True, 'detail': 'utterance %s missing from the feature table (rc=%s)' % (k, rc)}
                 want = pipeline(sigs[k][max(chan, 0)])
@@ -659,9 +665,10 @@ def replay(w):
                 return {'reproduced': True, 'detail': 'no output for %s (rc=%s)' % (k, rc)}
             got = torch.load(fp).numpy()
             x = v[chan] if v.ndim > 1 and (nchan > 1 or not w.get('mono_1d', True)) else v[0]
-            want = pipeline(x) if w.get('comp', True) else None
-            if want is not None and (got.shape != want.shape or not np.allclose(got, want, rtol=1e-3, atol=1e-3)):
-                return {'reproduced': True, 'detail': 'torch tool features for %s differ from the library pipeline' % k}
+            want = pipeline(x, w.get('comp', True))
+            if got.shape != want.shape or not np.allclose(got, want, rtol=1e-3, atol=1e-3):
+                return {'reproduced': True, 'detail': 'torch tool features for %s (computer=%s, pre=%d, post=%d) have shape %s, library pipeline gives %s%s' % (
+                    k, w.get('comp', True), len(pre), len(post), got.shape, want.shape, '' if got.shape != want.shape else ' (max diff %.3g)' % np.abs(got - want).max())}
         return {'reproduced': False, 'detail': 'torch tool output equals the library pipeline'}
     finally:
         shutil.rmtree(work, ignore_errors=True)
